@@ -7,7 +7,7 @@ real phosg code on every input and compares with the values stored here; it neve
 expected value itself.
 
 Case file (little endian):  "C10C" u32 ncases, then per case
-  u32 case_id, u8 kind (0 exhaustive-length, 1 random-large, 2 extended-length, 3 concurrency set, 4 length ladder), u8 fill, u8 allsplits, u8 nsplits,
+  u32 case_id, u8 kind (0 exhaustive-length, 1 random-large, 2 extended-length, 3 concurrency set, 4 length ladder, 5 dense length sweep,\n  6 digest-shape-directed input), u8 fill, u8 allsplits, u8 nsplits,
   u32 len, data[len], md5[16], sha1[20], sha256[32], u32 crc32, u32 fnv1a32, u64 fnv1a64,
   u8 seeded_flags (bit0: crc, bit1: fnv), u32 seed32, u64 seed64, u32 crc32(data, seed32), u32 fnv1a32(data, seed32),
   u64 fnv1a64(data, seed64)    -- expected values for an arbitrary NON-default running value,
@@ -87,6 +87,8 @@ def self_test():
     assert zlib.crc32(b"123456789") == 0xCBF43926
     assert hashlib.md5(b"abc").hexdigest() == "900150983cd24fb0d6963f7d28e17f72"
     assert hashlib.sha1(b"abc").hexdigest() == "a9993e364706816aba3e25717850c26c9cd0d89d"
+    assert not hashlib.md5(FIXED_SHAPE_VECTORS[0]).digest().translate(None, _TEXT)
+    assert not hashlib.sha1(FIXED_SHAPE_VECTORS[1]).digest().translate(None, _TEXT)
     assert hashlib.sha256(b"abc").hexdigest() == "ba7816bf8f01cfea414140de5dae2223b00361a396177a9cb410ff61f20015ad"
 
 
@@ -127,6 +129,9 @@ def plan(tier, seed):
             d = r.randint(-9, 1)
         n = min(64 * k + d, MIB)
         cases.append((1, 3, n, 0, r.getrandbits(64)))
+    # dense length sweep 301..5000, stride 1 (0..300 are enumerated above with four fills)
+    for n in range(301, 5001):
+        cases.append((5, 3, n, 0, r.getrandbits(64)))
     # length ladder: sizes next to every power of two and every 3*2^k up to (and just beyond) 1 MiB
     for n in ladder_sizes(tier):
         cases.append((4, 3, n, 0, r.getrandbits(64)))
@@ -144,6 +149,48 @@ def ladder_sizes(tier):
         sizes.update(3 * 2 ** k + d for d in range(-w, w + 1))
     sizes.update((MIB + 1, MIB + 2))
     return sorted(sizes)
+
+
+# ------------------------------------------------------------------------------------------------
+# digest-shape-directed inputs: a hex()/bin() rendering may depend on what the digest bytes look like (all printable, all
+# letters, quotes/backslashes inside).  Bounded search over "phosg-<i>" candidates with MD5, nothing cached between runs.
+
+_TEXT = bytes(range(0x20, 0x7F)) + b"\t\r\n"
+_LETTERS = b"ABCDEFGHIJKLMNOPQRSTUVWXYZabcdefghijklmnopqrstuvwxyz"
+FIXED_SHAPE_VECTORS = [b"phosg-7095342", b"phosg-720317140"]      # MD5 / SHA-1 digest entirely text bytes
+SHAPE_BUDGET = {"quick": 8_000_000, "thorough": 40_000_000}
+
+
+def shape_search(tier, seed, shard, nshards):
+    found = []
+    quoteish = 0
+    start = (seed % 100) * 4_000_000
+    md5 = hashlib.md5
+    for i in range(start + shard, start + SHAPE_BUDGET[tier], nshards):
+        c = b"phosg-%d" % i
+        d = md5(c).digest()
+        if not d.translate(None, _TEXT):
+            found.append(c)                                   # whole digest is text (0x20..0x7E, \t \r \n)
+        elif quoteish < 3 and (d[0] in b"\"'\\" or d[15] in b"\"'\\") and len(d.translate(None, _TEXT)) <= 6:
+            found.append(c)                                   # mostly text with a quote / backslash at an end
+            quoteish += 1
+    return found
+
+
+# ------------------------------------------------------------------------------------------------
+# early-call probe: the harness hashes this input from a static initializer (before main, before libphosg's own
+# initializers) and main() compares with these values.
+
+EARLY_INPUT = b"early call probe: The quick brown fox jumps over the lazy dog 0123456789 \x00\xff\x80 phosg"
+EARLY_CUT = 17
+
+
+def early_args():
+    x = EARLY_INPUT
+    h32, h64 = fnv1a(x)
+    blob = hashlib.md5(x).digest() + hashlib.sha1(x).digest() + hashlib.sha256(x).digest() + \
+        struct.pack("<IIQI", zlib.crc32(x) & 0xFFFFFFFF, h32, h64, zlib.crc32(x[:EARLY_CUT]) & 0xFFFFFFFF)
+    return ["early_input=" + x.hex(), "early_cut=%d" % EARLY_CUT, "early_expect=" + blob.hex()]
 
 
 def _splits(r, n):
@@ -165,7 +212,7 @@ def _gen_shard(job):
     for cid, (kind, fill, n, allsplits, rseed) in enumerate(cases):
         if cid % nshards != shard:
             continue
-        if kind in (1, 4):
+        if kind in (1, 4, 5):
             rr = random.Random(rseed)
             data = rr.randbytes(n)
             splits = _splits(rr, n)
@@ -175,6 +222,10 @@ def _gen_shard(job):
         out.append(pack_case(cid, kind, fill, allsplits, data, splits, random.Random("c10-seeds-%d-%d" % (seed, cid))))
         count += 1
         nbytes += n
+    shaped = shape_search(tier, seed, shard, nshards) + (FIXED_SHAPE_VECTORS if shard == 0 else [])
+    for j, data in enumerate(shaped):
+        out.append(pack_case(10_000_000 + shard * 10_000 + j, 6, 3, 0, data, [], random.Random("c10-shape-%d" % j)))
+        count += 1
     with open(path + ".tmp", "wb") as f:
         f.write(b"C10C" + struct.pack("<I", count))
         f.write(b"".join(out))
@@ -189,7 +240,7 @@ def make_cases(ctx):
     with ProcessPoolExecutor(max_workers=min(NSHARDS, os.cpu_count() or 4)) as ex:
         res = list(ex.map(_gen_shard, jobs))
     ctx["c10_generated"] = {"cases": sum(c for c, _ in res), "input_bytes": sum(b for _, b in res)}
-    return ["cases=" + base]
+    return ["cases=" + base] + early_args()
 
 
 # ------------------------------------------------------------------------------------------------
@@ -221,7 +272,7 @@ def _make_mt(ctx, tag, nshards):
     jobs = [("%s.%d.bin" % (base, s), ctx["tier"], int(ctx["seed"]), s, tag) for s in range(nshards)]
     with ProcessPoolExecutor(max_workers=nshards) as ex:
         list(ex.map(_gen_mt_shard, jobs))
-    return ["cases=" + base]
+    return ["cases=" + base] + early_args()
 
 
 def make_cases_mt(ctx):
